@@ -219,11 +219,15 @@ def run(pid, repo='/repo'):
     def d26(build):
         def f():
             s = build()
-            s.simplify(); r1 = str(s); s.simplify(); r2 = str(s); s.simplify(); r3 = str(s)
+            s.simplify(); r1 = str(s); v1 = s.copy(); s.simplify(); r2 = str(s); v2 = s.copy()
+            rs = [r2]
+            for _ in range(4):
+                s.simplify(); rs.append(str(s))
             if r1 == r2:
                 return None
             same = T.run(r1, {})[0] == T.run(r2, {})[0]
-            return 'display_same=%r converges=%r: after one simplify %r, after two %r' % (same, r2 == r3, r1, r2)
+            return 'display_same=%r settles=%r settings_same=%r: after one simplify %r, after two %r' % (
+                same, rs[-1] == rs[-2], O.same_settings_modulo_order(v1, v2), r1, r2)
         return f
     def w1():
         s = A('ab'); s.apply_formatting('blue', 0, 1); s.apply_formatting('[1;31', 1, 2); return s
@@ -232,4 +236,8 @@ def run(pid, repo='/repo'):
         s.apply_formatting(['33', '2'], 2, 3); return s
     case('D26 simplify not byte-idempotent (verbatim multi-code setting)', {'C03': 'simplify_idem'}, d26(w1))
     case('D26 simplify not byte-idempotent (parsable settings, reset form chosen by the optimiser)', {'C03': 'simplify_idem'}, d26(w2))
+    def w3():
+        # font ended with code 10, read back as the setting "default font": three rounds to settle
+        return A('\x1b[10;58;5;3;4my\x1b[10mxcy\x1b[0;42;53;34;10;21m c\x1b[m')
+    case('D26 simplify not byte-idempotent (font-clear code 10 read back as a setting)', {'C03': 'simplify_idem'}, d26(w3))
     return dict(viol=out, ran=ran)
